@@ -28,17 +28,22 @@ func runCLI(c *Ctx, stdin string, args ...string) cliRes {
 
 // runCLIT is runCLI with a chosen wall-clock watchdog.
 func runCLIT(c *Ctx, limit time.Duration, stdin string, args ...string) cliRes {
-	if c.Gotree == "" {
+	return runBin(c, c.Gotree, nil, limit, stdin, args...)
+}
+
+// runBin executes a given build of the gotree command with extra environment.
+func runBin(c *Ctx, bin string, env []string, limit time.Duration, stdin string, args ...string) cliRes {
+	if bin == "" {
 		panic("verif: VERIF_GOTREE not set")
 	}
 	ctx, cancel := context.WithTimeout(context.Background(), limit)
 	defer cancel()
-	cmd := exec.CommandContext(ctx, c.Gotree, args...)
+	cmd := exec.CommandContext(ctx, bin, args...)
 	cmd.Stdin = bytes.NewBufferString(stdin)
 	var so, se bytes.Buffer
 	cmd.Stdout, cmd.Stderr = &so, &se
 	cmd.Dir = c.Tmp
-	cmd.Env = append(os.Environ(), "GOTRACEBACK=single")
+	cmd.Env = append(append(os.Environ(), "GOTRACEBACK=single"), env...)
 	err := cmd.Run()
 	r := cliRes{Stdout: so.String(), Stderr: se.String()}
 	if ps := cmd.ProcessState; ps != nil {
